@@ -7,6 +7,7 @@ pub mod c03;
 pub mod c04;
 pub mod c05;
 pub mod c06;
+pub mod c09;
 
 pub fn lookup(id: &str) -> Option<&'static dyn Property> {
     let p: &'static dyn Property = match id {
@@ -16,6 +17,7 @@ pub fn lookup(id: &str) -> Option<&'static dyn Property> {
         "C04" => &c04::C04,
         "C05" => &c05::C05,
         "C06" => &c06::C06,
+        "C09" => &c09::C09,
         _ => return None,
     };
     Some(p)
